@@ -32,10 +32,12 @@ def suites():
     add("T13-CHACHA20-padlen", "ver=T13 padlen=300", "ver=T13 suites=0x1303 padlen=700", fam="chacha")
     add("T13-AES256-GCM-padlate", "ver=T13", "ver=T13 suites=0x1302", post=["pad c0 4096", "pad s0 2048"])
     add("T12-AES128-GCM-ticket", "ver=T12", "ver=T12 suites=0xc02f sid=R tick=1", resume=True)
-    # RFC 6066 max_fragment_length: large writes go out as many small records, each with its own sequence number / nonce
-    add("T12-AES128-GCM-maxfrag512", "ver=T12", "ver=T12 suites=0xc02f maxfrag=512")
-    add("T12-AES256-CBC-SHA256-maxfrag1024", "ver=T12", "ver=T12 suites=0x3d maxfrag=1024", fam="cbc")
-    add("T13-AES128-GCM-maxfrag1024", "ver=T13", "ver=T13 suites=0x1301 maxfrag=1024")
+    # RFC 6066 max_fragment_length: large writes go out as many small records, each with its own sequence number / nonce.
+    # PSK key exchange, so that no handshake message is larger than the fragment size (MxSession describes handshake
+    # messages record by record; a Certificate spread over several TLS records is outside what it models)
+    add("T12-PSK-AES128-CBC-SHA256-maxfrag512", "ver=T12", "ver=T12 suites=0xae maxfrag=512", fam="cbc")
+    add("T12-PSK-AES256-CBC-SHA384-maxfrag1024", "ver=T12", "ver=T12 suites=0xaf maxfrag=1024", fam="cbc")
+    add("T13-extpsk-AES128-GCM-maxfrag1024", "ver=T13", "ver=T13 suites=0x1301 maxfrag=1024")
     add("D12-AES128-GCM", "ver=D12", "ver=D12 suites=0xc02f", dtls=True)
     add("D12-AES128-CBC-SHA256", "ver=D12", "ver=D12 suites=0x3c", fam="cbc", dtls=True)
     add("D10-AES128-CBC-SHA", "ver=D10", "ver=D10 suites=0x2f", fam="cbc", dtls=True)
